@@ -1,8 +1,10 @@
 package ir
 
 import (
+	"fmt"
 	"go/token"
 	"go/types"
+	"os"
 	"strings"
 
 	"golang.org/x/tools/go/ssa"
@@ -341,7 +343,10 @@ func (w *World) prefixOfStoreValue(v ssa.Value, depth int) (string, *Expr) {
 func (w *World) SectionOfKey(key *Expr) string {
 	s := w.sectionOf(key, 0)
 	if s == "~loop" {
-		return "?"
+		s = "?"
+	}
+	if s == "?" && os.Getenv("MCDEBUG") == "sec" && key != nil {
+		fmt.Fprintln(os.Stderr, "section ? for key", key.String())
 	}
 	return s
 }
@@ -404,6 +409,22 @@ func (w *World) sectionOf(e *Expr, depth int) string {
 		return w.sectionOf(e.Args[0], depth+1)
 	case "conv":
 		return w.sectionOf(e.Args[0], depth+1)
+	case "res":
+		// one of several keys a builder hands back together (`start, end := types.BlockRange(id)`)
+		if len(e.Args) == 1 && e.Args[0].Op == "call" && e.Args[0].Callee != nil {
+			if x := w.Expand(e, 3); x != nil && x.String() != e.String() {
+				return w.sectionOf(x, depth+1)
+			}
+		}
+	case "field":
+		// the key kept in a record (an entry of a list collected beforehand: `entry.key`): what the record was built with
+		if x := w.Expand(e, 4); x != nil && x.String() != e.String() {
+			return w.sectionOf(x, depth+1)
+		}
+	case "const", "zero":
+		if e.Op == "zero" || e.Name == "nil" {
+			return "~loop" // an empty key variable before it is first assigned: the other alternatives decide
+		}
 	}
 	return "?"
 }
